@@ -58,17 +58,26 @@ class Parameter:
             self.upper = upper
             self.lower = lower
             self.width = upper - lower
-            self.proposal = self.boundary_proposal
             self.bounded = True
+            self.select_proposal()
         else:
             warn("Upper limit must be greater than lower limit")
 
     def remove_boundaries(self):
-        self.proposal = self.standard_proposal
         self.bounded = False
         self.upper = 0.0
         self.lower = 0.0
         self.width = 0.0
+        self.select_proposal()
+
+    def select_proposal(self):
+        # choose the proposal from all the limits currently in force
+        if self.bounded:
+            self.proposal = self.boundary_proposal
+        elif self._non_negative:
+            self.proposal = self.abs_proposal
+        else:
+            self.proposal = self.standard_proposal
 
     @property
     def non_negative(self):
@@ -78,10 +87,7 @@ class Parameter:
     def non_negative(self, value):
         if type(value) is bool:
             self._non_negative = value
-            if self._non_negative is True:
-                self.proposal = self.abs_proposal
-            else:
-                self.proposal = self.standard_proposal
+            self.select_proposal()
         else:
             warn("non_negative must have a boolean value")
 
@@ -114,12 +120,15 @@ class Parameter:
 
         # we now pass the proposal through a 'reflecting' function where
         # proposals falling outside the boundary are reflected inside
-        d = prop - self.lower
-        n = (d // self.width) % 2
+        # (if the parameter is also non-negative, the lower boundary cannot be below zero)
+        lower = max(self.lower, 0.0) if self._non_negative else self.lower
+        width = self.upper - lower
+        d = prop - lower
+        n = (d // width) % 2
         if n == 0:
-            return self.lower + d % self.width
+            return lower + d % width
         else:
-            return self.upper - d % self.width
+            return self.upper - d % width
 
     def submit_accept_prob(self, p: float):
         self.num += 1
@@ -208,12 +217,7 @@ class Parameter:
         param.lower = float(dictionary[i + "lower"])
         param.width = float(dictionary[i + "width"])
 
-        if param.bounded:
-            param.proposal = param.boundary_proposal
-        elif param._non_negative:
-            param.proposal = param.abs_proposal
-        else:
-            param.proposal = param.standard_proposal
+        param.select_proposal()
         return param
 
 
